@@ -192,6 +192,15 @@ func CallCount(name string) int                               { return native3()
 func CallIndex(name string, k int) int                        { return native3().CallIndex(name, k) }
 func CallArg(call, arg int, dst interface{})                  { native3().CallArg(call, arg, dst) }
 func SameObject(a, b interface{}) bool                        { return native3().SameObject(a, b) }
+
+// CallRet copies result number ret of recorded call number call into dst.
+func CallRet(call, ret int, dst interface{}) {
+	if s, ok := Native.(interface{ CallRet(call, ret int, dst interface{}) }); ok {
+		s.CallRet(call, ret, dst)
+		return
+	}
+	panic("zzverif: native stub support not installed")
+}
 func SerializedExactly(data []byte, m interface{}) bool       { return native3().SerializedExactly(data, m) }
 func SetUnexportedField(ptr interface{}, f string, v interface{}) { native3().SetUnexportedField(ptr, f, v) }
 func DeepSnapshot(v interface{}) interface{}                  { return native3().DeepSnapshot(v) }
@@ -249,3 +258,8 @@ func StrLess(a, b string) bool { return a < b }
 // outputs; nothing else is assumed). What the function computes is the subject of the
 // harnesses that execute it. No effect natively.
 func Summarize(fullName string) {}
+
+// Concretize splits the execution over the values lo..hi of v (one path per value, each
+// with v constant); a value outside the range is reported as an unwinding failure, never
+// silently dropped. Natively the identity.
+func Concretize(v, lo, hi int) int { return v }
